@@ -262,6 +262,38 @@ func validHeaderFieldValue(v string) bool {
 	return true
 }
 
+// validMethod reports whether v is a valid request method.
+//  RFC 7230 says:
+//   method         = token
+func validMethod(v string) bool {
+	if len(v) == 0 {
+		return false
+	}
+	for i := 0; i < len(v); i++ {
+		if int(v[i]) >= len(isTokenTable) || !isTokenTable[v[i]] {
+			return false
+		}
+	}
+	return true
+}
+
+// validPseudoPath reports whether v is a valid :path pseudo-header
+// value. It must be either:
+//
+//     *) a non-empty string starting with '/'
+//     *) the string '*', for OPTIONS requests.
+//
+// Further, it must not contain SP or control characters, which would
+// break the request line when the request is forwarded via HTTP/1.x.
+func validPseudoPath(v string) bool {
+	for i := 0; i < len(v); i++ {
+		if b := v[i]; b <= ' ' || b == 0x7f {
+			return false
+		}
+	}
+	return (len(v) > 0 && v[0] == '/') || v == "*"
+}
+
 var httpCodeStringCommon = map[int]string{} // n -> strconv.Itoa(n)
 
 func init() {
